@@ -97,6 +97,8 @@ impl<M> LinkS<M> {
             detach.closed && (old(self).local_state is CloseSent || old(self).local_state is Attached || old(self).local_state is AttachSent || old(self).local_state is AttachReceived)
                 ==> (match detach.error { Some(e) => r == Err::<(), DetachError>(DetachError::RemoteClosedWithError(e)), None => r is Ok }),
             detach.error is Some ==> r is Err && !(r->Err_0 is ClosedByRemote) && !(r->Err_0 is DetachedByRemote),
+            !detach.closed && (old(self).local_state is Attached || old(self).local_state is DetachSent)
+                ==> (match detach.error { Some(e) => r == Err::<(), DetachError>(DetachError::RemoteDetachedWithError(e)), None => r is Ok }),       // (unit LINK: [C13.link.peer-detach-error])
     { unimplemented!() }
 }
 
@@ -209,6 +211,10 @@ pub open spec fn detaches_from(ops: Seq<Op>, from: int) -> nat decreases ops.len
         final(link).ops@.len() == old(link).ops@.len() ==> final(reader).got == old(reader).got,                                                       // nothing is awaited unless the detach went out
         r == attach_error && (attach_error is CoordinatorIsNotImplemented || attach_error is SourceAddressIsSomeWhenDynamicIsTrue || attach_error is TargetAddressIsNoneWhenDynamicIsTrue || attach_error is DynamicNodePropertiesIsSomeWhenDynamicIsFalse)
             ==> final(link).ops@.len() > old(link).ops@.len(),       // [C13.attach.refused-attach-is-closed]
+        final(reader).got == old(reader).got && r != attach_error ==> (match old(link).session_stop_reason.v {
+            Some(reason) => r == SenderAttachError::SessionStopped(reason),       // [C14.attach.closed-channel-reports-stop-reason]
+            None => r is IllegalState,
+        }),
 //@@ end
 
 impl L {
@@ -233,6 +239,10 @@ impl L {
             || attach_error is TargetAddressIsNoneWhenDynamicIsTrue || attach_error is DynamicNodePropertiesIsSomeWhenDynamicIsFalse) && r == attach_error
             ==> final(self).ops@.len() > old(self).ops@.len() && final(self).ops@[old(self).ops@.len() as int] is SendDetach,       // [C13.attach.refused-attach-is-closed] when THIS end refuses the peer's attach and says so to its caller, the closing detach has been written: the peer is not left with a link nobody owns (if the detach cannot be written the caller is told that the session is gone instead)
         final(self).ops@.len() == old(self).ops@.len() + 2 ==> final(self).ops@.last() is OnDetach,       // [C13.attach.at-most-one-detach]
+        final(reader).got == old(reader).got && r != attach_error ==> (match old(self).session_stop_reason.v {
+            Some(reason) => r == SenderAttachError::SessionStopped(reason),       // [C14.attach.closed-channel-reports-stop-reason] when the refusal cannot be written or its answer never comes because the session has gone, the caller is told the session's published stop reason -- not some other error of the link's own choosing
+            None => r is IllegalState,
+        }),
 //@@ end
 }
 } // mod sender
@@ -345,6 +355,10 @@ impl L {
             || attach_error is TargetAddressIsSomeWhenDynamicIsTrue || attach_error is DynamicNodePropertiesIsSomeWhenDynamicIsFalse) && r == attach_error
             ==> final(self).ops@.len() > old(self).ops@.len() && final(self).ops@[old(self).ops@.len() as int] is SendDetach,       // [C13.attach.refused-attach-is-closed]
         final(self).ops@.len() == old(self).ops@.len() + 2 ==> final(self).ops@.last() is OnDetach,       // [C13.attach.at-most-one-detach]
+        final(reader).got == old(reader).got && r != attach_error ==> (match old(self).session_stop_reason.v {
+            Some(reason) => r == ReceiverAttachError::SessionStopped(reason),       // [C14.attach.closed-channel-reports-stop-reason] when the refusal cannot be written or its answer never comes because the session has gone, the caller is told the session's published stop reason -- not some other error of the link's own choosing
+            None => r is IllegalState,
+        }),
 //@@ end
 }
 } // mod receiver
@@ -404,6 +418,12 @@ impl L {
             &&& final(self).ops@.len() >= old(self).ops@.len() ==> (final(self).ops@.len() > old(self).ops@.len() ==> final(self).ops@[old(self).ops@.len() as int] == Op::SendDetach(d.closed, None::<AmqpError>))
             &&& final(self).ops@.len() <= old(self).ops@.len() + 2
             &&& final(self).ops@.len() == old(self).ops@.len() + 2 ==> final(self).ops@[old(self).ops@.len() as int + 1] == Op::OnDetach(d)
+            &&& final(self).ops@.len() == old(self).ops@.len() + 2 && old(self).local_state is Attached ==> r.0->Err_0 == (match (d.closed, d.error) {
+                    (true, None) => LinkStateError::RemoteClosed,
+                    (true, Some(e)) => LinkStateError::RemoteClosedWithError(e),
+                    (false, None) => LinkStateError::RemoteDetached,
+                    (false, Some(e)) => LinkStateError::RemoteDetachedWithError(e),
+                })       // [C13.sender.peer-detach-error-is-what-the-send-gets] [C14.sender.peer-detach-error-is-what-the-send-gets] the waiting send fails with what the peer did -- closed or detached -- and with the error its detach carried, if it carried one
         }),
         (frame is Some && !(frame->Some_0 is Detach)) ==> r.0->Err_0 is ExpectImmediateDetach && final(self).ops == old(self).ops,       // [C15.sender.unexpected-frame-while-waiting-for-credit] any other frame on a sender's channel is an error of the link, nothing is written, no panic
         frame is None ==> final(self).ops == old(self).ops && (match old(self).session_stop_reason.v {
